@@ -54,6 +54,11 @@ def conformance(prop, tier, seed, work, ev, drv):
     stats, rej = judge("tv/TV_Slice.tla", None, obs, work)
     ev.add_judged("enumerated (len<=%d, |x|<=%d + i32 edges)" % (t["maxlen"], t["small"]), stats, rej, obs)
     rejects += rej
+    # the slice in context: behind another projection, over rows of different lengths (judged through the evaluation model)
+    import eng_eval
+    ccases = work.path("slice.ctx.cases")
+    generate(work, "context", ccases, {})
+    rejects += eng_eval.run_and_judge("slice behind a projection over rows of different lengths", ccases, work, ev, drv, nsamples=1)
     # impl -> spec: random larger tuples drawn by the driver, spelled and judged by TLC
     params = work.path("slice.params")
     subprocess.check_call([drv, "gen", "slice", str(seed), str(t["rand"]), params])
